@@ -111,6 +111,10 @@ def make_case(rnd, wd, shape, tmpdir_tokens_with_one_iteration=True, dated_first
     iterations = rnd.choice([1, 2, 2, 3])
     if dated_first_line is not None and iterations == 1:
         iterations = 2
+    # a large text output that is plain ASCII for its first 64 KiB and has other characters after that
+    big = hint is not None and hint % 7 == 3 and shape in (['o1'], ['o1', 'o2'])
+    if big and hint % 2 == 1 and dated_first_line is None:
+        iterations = 1
     tokens = [socket.gethostname(), getpass.getuser(), wd]
     if iterations > 1 or tmpdir_tokens_with_one_iteration:
         tokens += ['{TMPDIR}', '{TMPDIR}/scratch.dat']
@@ -124,6 +128,9 @@ def make_case(rnd, wd, shape, tmpdir_tokens_with_one_iteration=True, dated_first
         files[names['o1']] = {'kind': 'text', 'text': text_of(rnd, rnd.randint(1, 4), token_pool=tokens)}
     if 'o1' in shape and rnd.random() < 0.25:
         files[names['o1']]['old_mtime'] = True
+    if big:
+        files[names['o1']]['text'] = ''.join('line %06d of an ordinary plain log, nothing special here\n' % k_ for k_ in range(rnd.choice([1300, 2600]))) \
+            + 'r\u00e9sum\u00e9 \u4e2d\u6587 done\n'
     if 'o4' in shape:
         # two text outputs whose names differ only in characters that are not legal in an identifier
         a, b = rnd.choice([('out-1.txt', 'out_1.txt'), ('a b.csv', 'a_b.csv'), ('report.1.log', 'report-1.log')])
